@@ -1278,7 +1278,7 @@ func C03(c *core.Ctx) {
 				exhausted := false
 				for _, pr := range in.Block().Preds {
 					if iff, okI := pr.Instrs[len(pr.Instrs)-1].(*ssa.If); okI {
-						if op, x, y, okC := core.Cmp(iff.Cond); okC && (op == token.GEQ || op == token.GTR || op == token.LSS || op == token.LEQ || op == token.EQL) {
+						if op, x, y, okC := core.CmpOrient(iff.Cond, func(v ssa.Value) bool { _, isPos := core.FieldOf(core.StripConv(v), "pos"); return isPos }); okC && (op == token.GEQ || op == token.GTR || op == token.LSS || op == token.LEQ || op == token.EQL) {
 							_, isPos := core.FieldOf(core.StripConv(x), "pos")
 							_, isLen := core.LenOf(core.StripConv(y))
 							if isPos && isLen {
@@ -1380,6 +1380,46 @@ func C03(c *core.Ctx) {
 			// the only octet left is 0xff
 			if ok && len(rows) == 4 && rows[3].Op == "default" && rows[0].Op == "<=" && rows[0].Thr == 0xfc && rows[1].Op == "==" && rows[1].Thr == 0xfd && rows[2].Op == "==" && rows[2].Thr == 0xfe {
 				rows[3].Op, rows[3].Thr = "==", 0xff
+			}
+		}
+		// the one-octet form split off by an early return (`if x <= 0xfc { …; return }`)
+		// and the markers in a switch that leaves 0xff to its default clause (after
+		// <= 0xfc, 0xfd and 0xfe the only octet left) is the same table
+		if ok && len(rows) == 3 && sw != nil {
+			var first *caseRow
+			for _, st := range fd.Body.List {
+				is, isIf := st.(*ast.IfStmt)
+				if !isIf || is.Else != nil || st.Pos() > sw.Pos() {
+					continue
+				}
+				be, isB := is.Cond.(*ast.BinaryExpr)
+				if !isB || len(is.Body.List) == 0 {
+					continue
+				}
+				if _, isRet := is.Body.List[len(is.Body.List)-1].(*ast.ReturnStmt); !isRet {
+					continue
+				}
+				if k, okK := constOf(encPk, be.Y); okK && ((be.Op == token.LEQ && k == 0xfc) || (be.Op == token.LSS && k == 0xfd)) {
+					r := caseRow{Op: "<=", Thr: 0xfc}
+					fillRow(encPk, &r, is.Body.List)
+					first = &r
+				}
+			}
+			var def *caseRow
+			marks := map[uint64]caseRow{}
+			for i := range rows {
+				if rows[i].Op == "default" {
+					def = &rows[i]
+				} else if rows[i].Op == "==" {
+					marks[rows[i].Thr] = rows[i]
+				}
+			}
+			_, a := marks[0xfd]
+			_, b := marks[0xfe]
+			if first != nil && def != nil && a && b {
+				d := *def
+				d.Op, d.Thr = "==", 0xff
+				rows = []caseRow{*first, marks[0xfd], marks[0xfe], d}
 			}
 		}
 		// a switch over the first octet that names the three markers and leaves the
